@@ -197,16 +197,16 @@ def replay_main(h, vals):
     lines.append('    }\n}')
     return '\n'.join(lines) + '\n'
 
-def native_batch(harnesses, timeout=420):
+def native_batch(harnesses, timeout=420, prop=None):
     """run several native oracles against the current tree with ONE build of the oracle crate; {harness: result}"""
     tmp = tempfile.mkdtemp(prefix='verif_replay_')
     try:
         setup(tmp)
-        return {h: search_native(h, timeout, tmp) for h in harnesses}
+        return {h: search_native(h, timeout, tmp, prop) for h in harnesses}
     finally:
         shutil.rmtree(tmp, ignore_errors=True)
 
-def search_native(harness, timeout=420, tmp_shared=None):
+def search_native(harness, timeout=420, tmp_shared=None, prop=None):
     tmp = tmp_shared or tempfile.mkdtemp(prefix='verif_replay_')
     try:
         if not tmp_shared: setup(tmp)
@@ -217,7 +217,9 @@ fn main() {
     std::panic::set_hook(Box::new(|_| {}));
     for (i, c) in %s(%d, %d).iter().enumerate() {
         let r = std::panic::catch_unwind(std::panic::AssertUnwindSafe(|| %s));
-        let msg = match r { Ok(Ok(())) => continue, Ok(Err(e)) => e, Err(_) => "the code under test panicked".to_string() };
+        let msg = match r { Ok(Ok(())) => continue, Ok(Err(e)) => e, Err(_) => "PANIC: the code under test panicked".to_string() };
+        // a family serves several properties: only failures of the property being checked count (a panic counts for all)
+        if let Ok(p) = std::env::var("VERIF_ORACLE_PROP") { if !p.is_empty() && !msg.starts_with(&format!("{}:", p)) && !msg.starts_with("PANIC") { continue; } }
         println!("FOUND {}", i);
         println!("CASE {:?}", c);
         println!("MSG {}", msg);
@@ -227,7 +229,7 @@ fn main() {
 }
 ''' % (nv['enum'], nv['n'], STREAM_SEED, nv['check']))
         # optimised, but WITH overflow checks and debug assertions: an arithmetic overflow must panic as it does in a debug build (C01)
-        env = dict(os.environ, CARGO_NET_OFFLINE='true', CARGO_TARGET_DIR=os.path.join(tmp, 'target'), RUSTFLAGS='-Awarnings -C overflow-checks=on -C debug-assertions=on')
+        env = dict(os.environ, CARGO_NET_OFFLINE='true', CARGO_TARGET_DIR=os.path.join(tmp, 'target'), RUSTFLAGS='-Awarnings -C overflow-checks=on -C debug-assertions=on', VERIF_ORACLE_PROP=prop or '')
         t0 = time.time()
         rc_, out = run_group(['cargo', 'run', '--offline', '-q', '--release', '--bin', 'native_search'], tmp, env, timeout)
         wall = round(time.time() - t0, 1)
@@ -253,8 +255,8 @@ fn main() {
     finally:
         if not tmp_shared: shutil.rmtree(tmp, ignore_errors=True)
 
-def search(harness, timeout=420):
-    if harness in NATIVE: return search_native(harness, timeout)
+def search(harness, timeout=420, prop=None):
+    if harness in NATIVE: return search_native(harness, timeout, None, prop)
     tmp = tempfile.mkdtemp(prefix='verif_replay_')
     try:
         hs = setup(tmp)
@@ -319,7 +321,7 @@ def harnesses_for(obligation):
 def harness_for(obligation):
     hs = harnesses_for(obligation)
     return hs[0] if hs else None
-def search_any(obligation, timeout=420):
+def search_any(obligation, timeout=420, prop=None):
     """try the paired harnesses in turn; the first failing input that replays wins, otherwise the last result (with all statuses)"""
     last = None; notes = []
     hs_ = harnesses_for(obligation)
@@ -327,7 +329,7 @@ def search_any(obligation, timeout=420):
     for h in hs_:
         left = t_end - time.time()
         if left < 60: notes.append('%s: skipped (search budget used up)' % h); continue
-        r = dict(search(h, timeout=int(min(timeout, left))), harness=h)
+        r = dict(search(h, timeout=int(min(timeout, left)), prop=prop), harness=h)
         notes.append('%s: %s' % (h, r.get('status')))
         last = r
         if r.get('status') == 'replayed-fails': break
